@@ -177,6 +177,9 @@ def r2(ctx, prog):
         raise AnalysisBroken('expected >=3 report sinks (a_vec, cname_vec, label text), found %d' % n)
 
 
+MAX_DEPTH = 1024
+
+
 def r3(ctx, prog):
     ctx.rule('C15.R3', 'A9e: the compressed-name decoder\'s recursion is bounded by an explicit depth/hop test', floor=1)
     f, fs = parse_funcs(prog)
@@ -200,6 +203,23 @@ def r3(ctx, prog):
                             ai = g.params.index(p_)
                             arg = g.s(g.strip_casts(st['args'][ai])) if ai < len(st.get('args', [])) else None
                             ok = arg is not None and arg['k'] in ('BinaryOperator',) and arg.get('op') in ('+', '-')
+                # ... and the bound it is tested against is a small constant: every level holds a stream object and a label buffer on the stack
+                big = None
+                if ok:
+                    for cond, k, b in g.cfg.controlling_branches(rp):
+                        cs = g.s(g.strip_casts(cond))
+                        for x in g.walk(cond):
+                            sx = g.stmts[x]
+                            if sx['k'] == 'BinaryOperator' and sx.get('op') in ('<', '<=', '>', '>=') and \
+                                    any(g.stmts[y]['k'] == 'DeclRefExpr' and g.stmts[y].get('dk') == 'ParmVar' for y in g.walk(x)):
+                                for side in sx['ch']:
+                                    v = q.eval_expr(g, side, lambda s_: None)
+                                    if v is not None and v > MAX_DEPTH:
+                                        big = v
+                if big is not None:
+                    ctx.ob('C15.R3', '%s|recursion' % g.name, False, 'the recursion is bounded by %d levels, each holding a stream object and a label buffer on the stack: a chain of '
+                           'compression pointers in one datagram still overflows the stack (bounds above %d are not accepted)' % (big, MAX_DEPTH), where=g.loc(st['i']))
+                    continue
                 ctx.ob('C15.R3', '%s|recursion' % g.name, ok,
                        'recursive call carries a counter that is tested and stepped' if ok else
                        '%s follows compression pointers by unbounded recursion: a pointer loop in the datagram recurses until the stack overflows' % g.short, where=g.loc(st['i']))
